@@ -398,8 +398,64 @@ fn query_alternatives(q: &Query, top: bool) -> Vec<Query> {
     out
 }
 
+/// Shapes the shrinker must not drift into, because they trigger recorded
+/// defects of their own (the minimised case would then show a different bug
+/// than the one found): integer literals as GROUP BY keys (read as ordinals by
+/// the engine) and IN / ANY / ALL subqueries whose left operand is constant
+/// (mis-planned by join reordering). Returns (ordinal keys, constant lhs).
+pub fn hazards(q: &Query) -> (usize, usize) {
+    let ord = std::cell::Cell::new(0usize);
+    let clhs = std::cell::Cell::new(0usize);
+    let mut c = q.clone();
+    visit_query_mut(
+        &mut c,
+        &mut |e| {
+            if let Expr::Subq { kind: SubqKind::In { lhs, .. } | SubqKind::Quant { lhs, .. }, .. } = e {
+                let mut has_col = false;
+                lhs.walk(&mut |x| {
+                    if matches!(x, Expr::Col { .. } | Expr::AliasRef { .. }) {
+                        has_col = true;
+                    }
+                });
+                if !has_col {
+                    clhs.set(clhs.get() + 1);
+                }
+            }
+        },
+        &mut |qq| {
+            fn sets(s: &SetExpr, n: &std::cell::Cell<usize>) {
+                match s {
+                    SetExpr::Select(sel) => {
+                        for k in sel.group_by.exprs() {
+                            if matches!(k, Expr::Lit(Value::Int(_), _)) {
+                                n.set(n.get() + 1);
+                            }
+                        }
+                    }
+                    SetExpr::Union { left, right, .. } => {
+                        sets(left, n);
+                        sets(right, n);
+                    }
+                }
+            }
+            sets(&qq.body, &ord);
+        },
+    );
+    (ord.get(), clhs.get())
+}
+
 /// All one-step shrink candidates of `q`, structural ones first.
 pub fn candidates(q: &Query) -> Vec<Query> {
+    let base = hazards(q);
+    let mut out = candidates_raw(q);
+    out.retain(|c| {
+        let h = hazards(c);
+        h.0 <= base.0 && h.1 <= base.1
+    });
+    out
+}
+
+fn candidates_raw(q: &Query) -> Vec<Query> {
     let mut out: Vec<Query> = Vec::new();
     // count nodes
     let nq_c = std::cell::Cell::new(0usize);
